@@ -110,10 +110,10 @@ impl Model {
 
     fn enabled(&self, tier: Tier) -> Vec<Op> {
         let mut v = vec![];
-        for (c, f) in [(0u8, 0u8), (1, 1), (0, 1), (1, 0)] {
-            if tier == Tier::Quick && c != f {
-                continue;
-            }
+        // the other two (content, folder) combinations are reached by
+        // replace (swaps the content) and move (swaps the folder)
+        let _ = tier;
+        for (c, f) in [(0u8, 0u8), (1, 1)] {
             if f == 1 && !self.f1_alive {
                 continue;
             }
@@ -1239,6 +1239,12 @@ fn main() {
     if let Some(p) = args.replay.clone() {
         replay(&args, &p);
     }
+    if args.rest.iter().any(|a| a == "--plan") {
+        // size of the enumeration, nothing is executed
+        let nodes = |root: bool| -> usize { (1..=depth_a(args.tier)).map(|d| enumerate_paths(&symbolic_root(root), d, args.tier).len()).sum() };
+        println!("work items {}; part a histories per backend: from two folders {}, from two folders + one file secret {}; part b maximal histories {} per backend", its.len(), nodes(false), nodes(true), paths.len());
+        std::process::exit(0);
+    }
     let mut run = Run::new("C17", "model_checking", &args);
     let base = fsutil::WorkDir::new("filex-build");
     let sh = match rt().block_on(build_shared(base.path(), args.seed)) {
@@ -1318,7 +1324,7 @@ fn main() {
     cov.insert("traces_validated_against_impl".into(), json!(histories[0] + histories[1] + histories[2]));
     cov.insert("samples".into(), json!(all_samples));
     cov.insert("exhaustive".into(), json!(true));
-    cov.insert("rule".into(), json!(format!("(a) every history up to depth {da} over {{create file secret (6000-byte content in the default folder | 100-byte content in the second folder{all}), replace content (Account::update_file), update meta only, move to the other folder, delete secret, delete the second folder, archive}} x every live file secret, from the two-folder account (file-system and sqlite client backends) and from the two-folder account that already holds one file secret (i.e. depth {da1} histories that begin with a create; {pb}), explored as a tree with directory snapshots; each file encryption / decryption costs about 1 s (age scrypt), hence the shallow depth. (b) every maximal history of depth {db} from the two-folder account through the real NetworkAccount (sync + file transfer queue) against an in-process server, second device = real NetworkAccount on a copy of the initial account that syncs after every step. (c) a {blen}-byte real encrypted blob: every single-byte alteration ({vals} per position), truncation at every length, empty, 3 extended bodies, 2 wrong names, connection closed midway at {ab} length, repeated upload; each followed by a correct upload and a download. A state is the id-free model state (folder liveness, per file secret folder and content) per backend", da = depth_a(args.tier), da1 = depth_a(args.tier) + 1, pb = args.tier.pick("file-system backend only in this tier", "both backends"), db = depth_b(args.tier), all = if args.tier == Tier::Thorough { " and the two other combinations" } else { "" }, blen = std::fs::metadata(&sh.upload_blob).map(|m| m.len()).unwrap_or(0), vals = args.tier.pick("3 values", "all 255 values"), ab = args.tier.pick("every 16th", "every"))));
+    cov.insert("rule".into(), json!(format!("(a) every history up to depth {da} over {{create file secret (6000-byte content in the default folder | 100-byte content in the second folder; the other combinations arise through replace and move), replace content (Account::update_file), update meta only, move to the other folder, delete secret, delete the second folder, archive}} x every live file secret, from the two-folder account (file-system and sqlite client backends) and from the two-folder account that already holds one file secret (i.e. depth {da1} histories that begin with a create; {pb}), explored as a tree with directory snapshots; each file encryption / decryption costs about 1 s (age scrypt), hence the shallow depth. (b) every maximal history of depth {db} from the two-folder account through the real NetworkAccount (sync + file transfer queue) against an in-process server, second device = real NetworkAccount on a copy of the initial account that syncs after every step. (c) a {blen}-byte real encrypted blob: every single-byte alteration ({vals} per position), truncation at every length, empty, 3 extended bodies, 2 wrong names, connection closed midway at {ab} length, repeated upload; each followed by a correct upload and a download. A state is the id-free model state (folder liveness, per file secret folder and content) per backend", da = depth_a(args.tier), da1 = depth_a(args.tier) + 1, pb = args.tier.pick("file-system backend only in this tier", "both backends"), db = depth_b(args.tier), blen = std::fs::metadata(&sh.upload_blob).map(|m| m.len()).unwrap_or(0), vals = args.tier.pick("3 values", "all 255 values"), ab = args.tier.pick("every 16th", "every"))));
     cov.insert("part_a_histories_one_device".into(), json!({"histories": histories[0], "depth": depth_a(args.tier), "backends": ["fs", "sqlite"], "work_items": its.iter().filter(|i| matches!(i, Item::Hist { .. })).count()}));
     cov.insert("part_b_transfer".into(), json!({"machinery": "real sos_net::NetworkAccount on both devices (add_server, automatic sync after every operation, its own file transfer queue); not the bare HttpClient file API", "maximal_histories": histories[1], "depth": depth_b(args.tier), "device_and_server_backends": args.tier.pick("fs", "fs and sqlite"), "second_device_syncs": cnt.syncs}));
     cov.insert("part_c_upload_inputs".into(), json!({"inputs": histories[2], "http_requests": cnt.requests, "wrong_bodies_refused": refused, "correct_uploads_accepted_afterwards": accepted, "responses": upload_status}));
